@@ -46,7 +46,7 @@ ANCHORS = ['pfhedge.nn.functional:d1',
            'pfhedge.nn.modules.ww:WhalleyWilmott.forward',
            'pfhedge.nn.modules.hedger:Hedger.compute_hedge']
 PYTEST_WORKLOAD = True  # thorough tier also runs /repo/tests with these passive monitors attached (DESIGN.md 2.7)
-DECIDING = ["extreme.finite", "nan_watch", "limit.price", "limit.delta", "reject.negative", "hedger.finite"]
+DECIDING = ["limit.negative_zero", "extreme.finite", "nan_watch", "limit.price", "limit.delta", "reject.negative", "hedger.finite"]
 REQUIRED_BRANCHES = ["reject.python_scalar_argument", "hedger.zero_volatility_underlier", "reject.other_argument_all_zero", "t=0", "sigma=0", "both=0", "tiny", "at_strike", "hedger.bs", "hedger.ww"]
 
 _CTX = None
@@ -250,6 +250,42 @@ def drv_extreme(ctx, k, rng):
                   "expected finite and zero", sig=(name, str(dtype)), log_moneyness=s, time_to_maturity=tt, volatility=v, observed=val)
 
 
+def drv_negzero(ctx, k, rng):
+    """-0.0 is zero: a time to maturity or volatility of negative zero (what `-(t - T)` gives at maturity) is the boundary case, with the same prices and deltas
+    as +0.0.  Case 0 is the fixed witness of the known finding."""
+    dtype = F64 if (k == 0 or rng.random() < 0.5) else F32
+    if k == 0:
+        s = torch.tensor([0.3, -0.3], dtype=dtype)
+        reg_t, reg_v = 0.3, 0.2
+    else:
+        s = t(rng.uniform(-0.5, 0.5, 4), dtype)
+        reg_t, reg_v = float(rng.uniform(0.05, 1.0)), float(rng.uniform(0.05, 0.6))
+    m = torch.maximum(s, t(rng.uniform(-0.2, 0.3, s.numel()), dtype)) if k else torch.maximum(s, torch.zeros_like(s))
+    mon = "limit.negative_zero"
+    for which in ("t", "v", "both"):
+        def args(z):
+            tt = torch.full_like(s, z if which in ("t", "both") else reg_t)
+            vv = torch.full_like(s, z if which in ("v", "both") else reg_v)
+            return tt, vv
+        fns = {
+            "bs_european_price": lambda tt, vv: F.bs_european_price(s, tt, vv), "bs_european_delta": lambda tt, vv: F.bs_european_delta(s, tt, vv),
+            "bs_european_binary_price": lambda tt, vv: F.bs_european_binary_price(s, tt, vv),
+            "bs_american_binary_price": lambda tt, vv: F.bs_american_binary_price(s, m, tt, vv),
+            "bs_american_binary_delta": lambda tt, vv: F.bs_american_binary_delta(s, m, tt, vv, 1.0),
+            "bs_lookback_price": lambda tt, vv: F.bs_lookback_price(s, m, tt, vv, 1.0),
+        }
+        for name, fn in fns.items():
+            ctx.seen(mon)
+            with torch.no_grad():
+                pos, neg = fn(*args(0.0)), fn(*args(-0.0))
+            same = bool(((pos == neg) | (torch.isnan(pos) & torch.isnan(neg))).all())
+            # known for every function whose formula divides by sigma * sqrt(t): the negative zero survives sqrt and the product, and flips the sign of +-inf
+            flips = which != "both"
+            ctx.check(mon, same, "negative_zero.sign_flip" if flips else "negative_zero", f"{name} with {'time_to_maturity' if which == 't' else ('volatility' if which == 'v' else 'both')} "
+                      f"= -0.0 gives {neg.tolist()} but {pos.tolist()} with +0.0 (log_moneyness {s.tolist()})", sig=(name, which, str(dtype)), log_moneyness=s, with_negative_zero=neg,
+                      with_positive_zero=pos)
+
+
 def drv_reject(ctx, k, rng):
     """Negative time to maturity or volatility in any element must raise ValueError in every function."""
     dtype = pick(rng, [F32, F64])
@@ -425,6 +461,7 @@ def drv_witness(ctx, k, rng):
 
 DRIVERS = [
     ("extreme", 16, 400, drv_extreme),
+    ("negzero", 6, 100, drv_negzero),
     ("witness", 3, 3, drv_witness),
     ("boundary", 300, 20000, drv_boundary),
     ("reject", 40, 1500, drv_reject),
